@@ -416,7 +416,9 @@ class World:
         cls = self.classes[op['cls']]
         kw = {'a%d' % a: v for a, v in op['kw']}
         pk = op.get('pk')
-        if pk is not None: kw.update(self.pk_kw(pk))
+        if pk is not None:
+            kw.update(self.pk_kw(pk))
+            if self.relpk and self.qs[pk[0]]._status_ in DEL: raise StaleOp()      # a deleted object as a search value is refused by validate
         conds = []; params = []
         cw, _ = self.class_where(op['cls'])
         if cw: conds.append(cw)
